@@ -29,6 +29,7 @@ def run(sc, keep_sim=False, hold=None):
     lat = sc.get('lat', [1])
     sim.latency = lambda c, src, dst: lat[(c * 7 + dst * 3 + src) % len(lat)]
     sim.faults = sc.get('faults', [])
+    sim.tx_time = sc.get('tx_time', 0)
     stacks = []
     res = Result()
     res.sc = sc
@@ -89,6 +90,14 @@ def _do(st, a):
         st.remove_timer(st.cbs.get(a['cid']) or st.cb(a['cid'], 'timer'))
     elif op == 'add_timer':
         st.add_timer(a['delta'] / 1e6, _timer_cb(st, a), None)
+    elif op == 'busy':
+        # the callback blocks the job thread for d microseconds (at its k-th invocation only when 'at' is given)
+        n = st.busy_count = getattr(st, 'busy_count', {})
+        key = a.get('key', 0)
+        n[key] = n.get(key, 0) + 1
+        if a.get('at') is None or n[key] == a['at']:
+            st.sim.trace.append((st.sim.now, st.idx, 'busy', a['d']))
+            st.sim.now += a['d']
     elif op == 'unsubscribe':
         st.unsubscribe(st.cbs.get(a['cid']) or st.cb(a['cid'], 'sub'))
     elif op == 'subscribe':
